@@ -862,3 +862,95 @@ Proof.
   unfold package. split; [apply map_length|]. intros st v Hin. apply in_map_iff in Hin.
   destruct Hin as ([s v0] & E & Hin). injection E as <- <-. exists s, v0. auto.
 Qed.
+
+(* ---- the prepared model is valid for the kernel ---- *)
+From QV.Proofs Require Import KeyProofs ArithProofs InvProofs LabelProofs.
+From QV.Proofs Require ReduceProofs ConvertProofs.
+
+(* a canonically stored quadratic spin model whose labels are below N *)
+Lemma wf_qvalid N t : wf KQusoM t -> LP (fun i => (i < N)%nat) t -> qvalid N t /\ NoDup (map fst t).
+Proof.
+  intros [Hnd Hk] Hl. split; [|exact Hnd]. intros k v Hin. destruct (Hk k v Hin) as [Hs _].
+  pose proof (squash_kd_ssorted KQusoM k k ltac:(discriminate) Hs) as Hss.
+  pose proof (squash_quadratic KQusoM k k eq_refl Hs) as Hlen.
+  destruct k as [|i [|j [|? ?]]]; simpl in Hlen; try lia.
+  - left. reflexivity.
+  - right. left. exists i. split; [reflexivity|]. apply (Hl [i] v i Hin). left. reflexivity.
+  - right. right. exists i, j. split; [reflexivity|]. simpl in Hss. destruct Hss as [Hij _].
+    split; [apply (Hl [i; j] v i Hin); left; reflexivity|]. split; [apply (Hl [i; j] v j Hin); right; left; reflexivity| lia].
+Qed.
+Lemma wf_nodup_keys kd0 t : kd0 <> KDict -> wf kd0 t -> nodup_keys (puso_flatten t).
+Proof.
+  intros Hk [_ Hw] k c Hin. unfold puso_flatten in Hin. apply filter_In in Hin. destruct Hin as [Hin _].
+  destruct (Hw k c Hin) as [Hs _]. pose proof (squash_kd_ssorted kd0 k k Hk Hs) as Hss.
+  clear -Hss. induction k as [|x k IH]; [constructor|]. destruct Hss as [Hlb Hss]. constructor; [|apply IH, Hss].
+  clear IH. revert x Hlb. induction k as [|y k IH]; intros x Hlb; [intros []|]. simpl in Hlb. destruct Hss as [Hlb' Hss'].
+  intros [->|Hin]; [lia|]. apply (IH Hss' x); [|exact Hin]. destruct k as [|z k]; simpl in *; [exact I| lia].
+Qed.
+
+(* Matrix input: labels are the spin indices themselves, N = max label + 1 *)
+Lemma list_max_ge l : forall i, In i l -> (i <= list_max l)%nat.
+Proof.
+  unfold list_max. assert (G : forall l a i, (In i l \/ (i <= a)%nat) -> (i <= fold_left Nat.max l a)%nat).
+  { induction l0 as [|x l0 IH]; simpl; intros a i H; [destruct H as [[]|H]; exact H|].
+    apply IH. destruct H as [[<-|H]|H]; [right; lia| left; exact H| right; lia]. }
+  intros i Hi. apply G. left. exact Hi.
+Qed.
+Theorem prep_matrix_valid m : Inv m -> wf (kd m) (tm m) -> kd m = KQusoM ->
+  qvalid (matrix_N m) (tm m) /\ NoDup (map fst (tm m)).
+Proof.
+  intros [B _] Hw Hk. rewrite Hk in Hw. apply wf_qvalid; [exact Hw|].
+  destruct (B ltac:(rewrite Hk; discriminate)) as (_ & LI & _).
+  intros k v i Hin Hi. specialize (LI k v i Hin Hi). unfold matrix_N.
+  destruct (vars_c m) as [|x l] eqn:Ev; [destruct LI|]. pose proof (list_max_ge (x :: l) i LI). lia.
+Qed.
+
+(* labelled input: the enumerated form has labels below the number of variables *)
+Theorem prep_labelled_valid m e : Inv m -> is_labelled (kd m) = true -> quso_to_quso m = Ok e ->
+  qvalid (num_vars m) (tm e) /\ NoDup (map fst (tm e)).
+Proof.
+  intros HI Hl H. unfold quso_to_quso, to_matrix in H. inv_bind H.
+  pose proof (m_create_wf _ _ _ H) as Hw. destruct (m_create_eval (fun _ => 1) _ _ _ H) as [_ K]; [intros i; left; reflexivity|].
+  rewrite K in Hw. apply wf_qvalid; [exact Hw|].
+  eapply m_create_LP; [|exact H]. intros k v i Hin Hi.
+  apply (Inv_range m HI Hl). eapply ReduceProofs.relabel_terms_range; eassumption.
+Qed.
+
+Lemma assoc_get_identity l k : In k l -> assoc_get k (map (fun i : nat => (i, i)) l) = Some k.
+Proof.
+  induction l as [|x l IH]; simpl; intros H; [destruct H|]. destruct (Nat.eqb_spec k x) as [->|Hne]; [reflexivity|].
+  destruct H as [->|H]; [congruence| apply IH, H].
+Qed.
+
+(* ---- a whole call of anneal_quso on a QUSOMatrix, front end included ---- *)
+Theorem run_spin_quso_matrix m tab Ts num io initial seed l :
+  kd m = KQusoM -> Inv m -> wf (kd m) (tm m) ->
+  run_spin true (SrcModel m) tab Ts num io initial seed = AResults l ->
+  (0 < num)%Z -> matrix_N m <> 0%nat ->
+  (forall d, initial = Some d -> forall k, (k < matrix_N m)%nat ->
+     match assoc_get k d with Some v => v = 1%Z \/ v = (-1)%Z | None => True end) ->
+  let N := matrix_N m in
+  length l = Z.to_nat num /\
+  forall st v, In (st, v) l -> exists s, length s = N /\ pm1 s /\
+    st = map (fun k => (match assoc_get k (identity_rmp N) with Some lb => lb | None => k end, nth k s 0%Z)) (seq 0 N) /\
+    v == eval (env_of s) (tm m).
+Proof.
+  intros Hk HI Hw H Hnum HN Hinit N. unfold run_spin in H.
+  destruct (num <=? 0)%Z eqn:En; [apply Z.leb_le in En; lia|].
+  cbn [prepare_quso] in H. rewrite Hk in H. cbn [prep_matrix] in H.
+  set (p := {| p_model := tm m; p_N := matrix_N m; p_rmp := identity_rmp (matrix_N m) |}) in *.
+  cbn [p_N p p_model] in H. destruct (Nat.eqb_spec (matrix_N m) 0) as [E0|_]; [contradiction|].
+  destruct (c_anneal_quso _ tab Ts (Z.to_nat num) io (init_of p initial) seed) as [res|] eqn:EC; [|discriminate].
+  injection H as <-.
+  destruct (prep_matrix_valid m HI Hw Hk) as [Hv Hnd].
+  destruct (c_anneal_quso_spec (matrix_N m) (tm m) tab Ts (Z.to_nat num) io (init_of p initial) seed res Hv Hnd EC) as [A B].
+  { unfold init_of. destruct initial as [d|]; [|exact I]. split; [rewrite map_length, seq_length; reflexivity|].
+    unfold pm1. apply Forall_forall. intros z Hz. apply in_map_iff in Hz. destruct Hz as (k & <- & Hks). apply in_seq in Hks.
+    cbn [p_rmp p].
+    assert (E : assoc_get k (identity_rmp (matrix_N m)) = Some k) by (apply assoc_get_identity; apply in_seq; exact Hks). rewrite E.
+    pose proof (Hinit d eq_refl k (proj2 Hks)) as Hd. destruct (assoc_get k d) as [v0|]; [exact Hd| left; reflexivity]. }
+  destruct (package_spec p res) as [PL PI]. split; [rewrite PL; exact A|].
+  intros st v Hin. destruct (PI st v Hin) as (s & v0 & Hres & Ev & Est). destruct (B s v0 Hres) as (Ls & Ps & Vs & _).
+  exists s. split; [exact Ls|]. split; [exact Ps|]. split; [exact Est|].
+  rewrite Ev, Vs. cbn [p_model p]. apply value_with_offset, Hnd.
+Qed.
